@@ -119,6 +119,17 @@ theorem C15_ensemble (F : Fmt) (e : Exc) (own : Text) (hl : e.live = some own) (
     simp only [Hop.pre, ImgT, Exc.mem] at hi ⊢
     exact hi.2.2.2.2
 
+/-- the same for any first hop and any exception that carries tracebacks -/
+theorem C15_ensemble_general (F : Fmt) (e : Exc) (hok : e.ok = true) (h0 : Hop) (hs : List Hop) :
+    ∃ e', run F e (h0 :: hs) = some e' ∧ ImgMems F h0.proc e.mem e'.mem := by
+  obtain ⟨c, a, t, m, h1, hm, _, hi⟩ := step_first F e hok h0
+  obtain ⟨t', h2, _, _⟩ := run_recv F c a m hm hs t
+  refine ⟨.mk c a none (.remote t') m, by rw [run_cons_eq F e _ _ hs h1]; exact h2, ?_⟩
+  cases e with
+  | mk c0 a0 l k m0 =>
+    simp only [Hop.pre] at hi
+    cases hr : h0.reraise <;> simp only [hr, Exc.raised, ImgT, Exc.mem_mk] at hi ⊢ <;> exact hi.2.2.2.2
+
 /-! `ImgMems` spelled out, one kind of entry at a time (so that `C15_ensemble` can be read without
     opening `Proofs/`): `m'` is the received result list. -/
 
